@@ -100,14 +100,15 @@ int run(const char* script, const char* trace) {
         }
         else if (c.op == "commit") {
             const int len = int(c.arg(0)), llid = int(c.arg(1));
-            auto buf = c.arg(2) ? b->allocate_transmit_buffer(std::size_t(len) + 2) : b->allocate_transmit_buffer();
+            const std::size_t asz = c.arg(2) ? std::size_t(len) + 2 : b->max_tx_size();     // requested allocation size
+            auto buf = c.arg(2) ? b->allocate_transmit_buffer(asz) : b->allocate_transmit_buffer();
             const bool r = buf.size != 0;
             if (r) {
                 buf.buffer[0] = std::uint8_t(llid); buf.buffer[1] = std::uint8_t(len);
                 for (int i = 0; i < len; ++i) buf.buffer[2 + i] = pattern(p_next, i);
                 b->commit_transmit_buffer(buf);
             }
-            t.ev("commit").f("id", p_next).f("len", len).f("llid", llid).f("r", r).f("pending", b->pending_outgoing_data_available()).end();
+            t.ev("commit").f("id", p_next).f("len", len).f("llid", llid).f("r", r).f("asz", (long long)asz).f("pending", b->pending_outgoing_data_available()).end();
             if (r) ++p_next;
         }
         else if (c.op == "read") {
